@@ -213,8 +213,10 @@ def data_job(interp, c, case):
         s.py_set_daughters(d1, d2)
         new = transport(interp, s)
         compare_fields(c, interp, s, new, "Schnitz")
-        c.prove(new.py_get_parent() is p and new.py_get_daughters() == (d1, d2), "Schnitz: mother/daughter links survive",
-                info={"sig": "Schnitz links", "what": "links"})
+        ok = c.prove(new.py_get_parent() is p and new.py_get_daughters() == (d1, d2), "Schnitz: mother/daughter links survive",
+                     info={"sig": "Schnitz links", "what": "links"})
+        if ok is False:
+            c.failures[-1]["replay"] = {"kind": "Schnitz"}
     elif which in ("lineage", "explineage"):
         lin = T.ns["ExperimentalLineage"]({"GFP": 0, "RFP": 1}) if which == "explineage" else T.ns["Lineage"]()
         ss = [T.ns["Schnitz"](tok("t%d" % i, 2), tok("d%d" % i, (2, 2)), tok("v%d" % i, 2)) for i in range(3)]
